@@ -133,3 +133,99 @@ def noise(rng, maxlen):
     if n > 17 and rng.random() < 0.7:
         b[15] = rng.choice([0, 0, 1, 2]); b[17] = rng.randrange(13)
     return bytes(b).hex() or '-'
+
+
+# ---------------------------------------------------------------------------------------------------------------
+# Universal traffic: every dimension the seeded changes of rounds 1-5 needed, in one generator used by ALL frame-level
+# checks next to their targeted cases (each check evaluates its own predicate on it; the specification state folded by
+# the predicates takes strangers, bridges, both services and Resets into account).
+# ---------------------------------------------------------------------------------------------------------------
+IFMACS = [OWN, OWN2, '00005e000001']
+BLOBS = ['none', '-', 'gen:5:7', 'gen:300:1', 'gen:542:2', 'gen:543:3', 'gen:3000:4']
+
+
+def universal(rng, nif=None, length=None, with_glob_changes=True):
+    """ops for 1..3 interfaces of one responder"""
+    nif = nif or rng.choice([1, 1, 2, 3])
+    mtus = [rng.choice([576, 576, 1500, 1492, 577 + rng.randrange(40), 9216]) for _ in range(nif)]
+    macs = IFMACS[:nif]
+    ops = []
+    for i in range(nif):
+        kw = {}
+        if rng.random() < 0.3:
+            kw.update(wifi=1, mode=rng.choice([0, 1, 2]), bssid=rng.choice(STATIONS), ssid='6162', rate=108, rssi=-40)
+        ops.append(iface_line(i, mac=macs[i], mtu=mtus[i], **kw))
+    hostlen = rng.choice([0, 1, 6, 6, 31, 32, 33, 40])
+    ops.append(glob_line(host=(''.join('%02x' % rng.randrange(1, 256) for _ in range(hostlen)) or '-'), hostrep=rng.choice(['copied', 'copied', 'full']),
+                         icon=rng.choice(BLOBS), fname=rng.choice(BLOBS[:5] + ['4c004c00']), hwid=rng.choice(['-', '4100', '41004200430044004500', 'ab' * 64])))
+    pool = STATIONS[:4]
+    mapper = [None] * nif          # who the generator believes is active (only a bias for choosing senders)
+    seen_src = [[] for _ in range(nif)]
+    for _ in range(length or rng.randint(8, 70)):
+        i = rng.randrange(nif)
+        own, mtu = macs[i], mtus[i]
+        who = mapper[i] if (mapper[i] and rng.random() < 0.75) else rng.choice(pool)
+        eth = None if rng.random() < 0.6 else rng.choice(pool + [rng.choice(macs)])
+        tos01 = rng.choice([0, 0, 0, 1])
+        seq = rng.choice([0, 1, 2, 0x00ff, 0x0100, 0x7fff, 0x8000, 0xffff, rng.randrange(65536)])
+        c = rng.random()
+        z = rng.choice(['', ' zero', ' zero'])
+        if rng.random() < 0.06:
+            # a burst of distinct observations around the capacity of one QueryResp at this MTU (sometimes far beyond)
+            cap = (mtu - 34) // 20
+            nb = rng.choice([cap - 1, cap, cap + 1, 2 * cap + 1, 5, 80])
+            tag = rng.randrange(256)
+            for k in range(max(nb, 1)):
+                ops.append('rx %d %s zero' % (i, probe('0e%02x0000%04x' % (tag, k), own, rng.choice([who, rand_mac(rng)]), own, train=k % 3 == 0)))
+            continue
+        if c < 0.16:
+            gen = rng.choice([0, 1, 1, 2, 0xffff, rng.randrange(65536)])
+            st = [rng.choice([own, rand_mac(rng)]) for _ in range(rng.choice([0, 0, 1, 3]))]
+            f = discover(who, gen, rng.randrange(65536), st, tos=rng.choice([0, 0, 1, 1, 2, 3, 0xff]), eth_src=eth)
+            if mapper[i] is None:
+                mapper[i] = who
+        elif c < 0.22:
+            f = hello(rng.choice(pool), rand_u16(rng), who, who, tos=tos01)
+        elif c < 0.36:
+            nd = rng.choice([1, 1, 2, 3, 5, (mtu - 34) // 14])
+            descs = []
+            for _ in range(nd):
+                src = rng.choice([rand_mac(rng), own, rng.choice(macs), who, '000d3ad7f1%02x' % rng.randrange(256)])
+                dst = rng.choice([rng.choice(macs), rng.choice(macs), rand_mac(rng), BCAST])
+                descs.append((rng.choice([0, 1, 1, 0, 2]), rng.choice([0, 0, 1, 255]), src, dst))
+            f = emit(who, own, seq, descs, eth_src=eth, declared=rng.choice([None, None, None, nd + 1, 0xffff, 0]), tos=rng.choice([0, 0, 0, 1, 2]))
+            if len(f) // 2 > mtu:
+                f = f[:2 * mtu]
+        elif c < 0.58:
+            if seen_src[i] and rng.random() < 0.2:
+                src, rsrc = rng.choice(seen_src[i])            # a duplicate
+            else:
+                src = rng.choice([rand_mac(rng), own, rng.choice(macs), '0c00000000%02x' % rng.randrange(8)])
+                rsrc = rng.choice([rand_mac(rng), rng.choice(macs), who])
+                seen_src[i].append((src, rsrc))
+            rdst = rng.choice([own, own, own, rng.choice(macs), rand_mac(rng), BCAST])
+            f = probe(src, rng.choice([own, BCAST, rand_mac(rng)]), rsrc, rdst, train=rng.random() < 0.4, tos=rng.choice([0, 0, 0, 1, 2]))
+        elif c < 0.70:
+            f = query(who, own, seq, eth_src=eth, tos=rng.choice([0, 0, 0, 1, 2]))
+        elif c < 0.84:
+            ty = rng.choice([0x0e, 0x0e, 0x11, 0x13, 0x12, 0x14, 0, rng.randrange(256)])
+            P = mtu - 34
+            off = rng.choice([0, 0, 1, P - 1, P, P + 1, 2 * P, 299, 300, 301, 542, 543, 3000, 0x7fff, 0x8000, 0xffff, rng.randrange(65536)])
+            f = qltlv(who, own, seq, ty, min(off, 65535), eth_src=eth, tos=rng.choice([0, 0, 1, 1, 2]))
+        elif c < 0.91:
+            f = reset(who, tos=rng.choice([0, 0, 1, 2]), eth_src=eth, own=rng.choice([BCAST, own]))
+            if rng.random() < 0.8:
+                mapper[i] = None
+        elif c < 0.96:
+            f = raw(rng.choice([2, 3, 0x80, 0xff, rng.randrange(256)]), rng.choice([0, 0, 2, 6, 8, 11, rng.randrange(256)]), rng.choice([own, BCAST]), eth or who,
+                    rng.choice([own, BCAST]), who, seq, ''.join('%02x' % rng.randrange(256) for _ in range(rng.choice([0, 4, 40]))))
+        else:
+            f = rng.choice([raw(0, rng.choice([5, 7, 9, 10, 12, 13, 200]), own, who, own, who, seq, '0001'), mutate(rng, discover(who, 1, 1, eth_src=eth))])
+        if len(f) // 2 > mtu:
+            f = f[:2 * mtu]
+        ops.append('rx %d %s%s' % (i, f or '-', z))
+        if with_glob_changes and rng.random() < 0.03:
+            ops.append('glob icon=%s' % rng.choice(BLOBS))
+    for i in range(nif):
+        ops.append('dump %d' % i)
+    return ops
